@@ -186,7 +186,7 @@ func main() {
 		addCase(c3)
 	}
 
-	// `getline var` in CSV/TSV mode after the fields were used (F-C02-8), API and command
+	// `getline var` in CSV/TSV mode after the fields were used (the repaired F-C02-8), API and command
 	for _, mode := range []string{"csv", "tsv", "csv-header"} {
 		for _, src := range []string{`BEGIN { n = NF; getline x; print $1 }`, `{ n = NF; getline A[1]; print $3 }`, `{ print $1; getline x; print $2, $3, $4 }`} {
 			c := api("csv-getline-var", src, "a\nb,c,d\ne\tf\tg\th\ni\n")
@@ -195,6 +195,18 @@ func main() {
 		}
 	}
 	addCase(cli("csv-getline-var-cli", "a,b,c\n", "-i", "csv", `BEGIN { n = NF; getline x; print $1 }`))
+	for _, pr := range [][3]string{
+		{`{ getline x; print NF, $1, x }`, "p,q\na,b,c\n", "2 p a,b,c\n"},
+		{`{ n = NF; getline A[1]; print n, NF, $2, $3 "|" }`, "p,q\na,b,c\n", "2 2 q |\n"},
+		{`BEGIN { n = NF; getline x; print n, NF, "[" $1 "]", x }`, "a,b,c\n", "0 0 [] a,b,c\n"},
+		{`{ getline $2; print NF, $0 }`, "p,q\na,b,c\n", "2 p a,b,c\n"},
+		{`{ getline; print NF, $1, $3 }`, "p,q\na,b,c\n", "3 a c\n"},
+	} {
+		c := api("csv-getline-var-output", pr[0], pr[1])
+		c.InMode = "csv"
+		c.Expect, c.ExpectWhy, c.ExpectOutHex = "ok", "a record read by getline into a variable or field leaves NF and the other fields of the current record unchanged (plain getline replaces them)", hxe(pr[2])
+		addCase(c)
+	}
 
 	// ---- 5. recursion depth: exactly at the limit is fine, one more is an error, never a crash ----
 	// Depths up to a few thousand run in-process (harmless for the Go stack even if the limit were
@@ -303,6 +315,11 @@ func main() {
 		}
 	}
 
+	// ---- 9b. delivery of the input as a dimension: every separator regime x terminator-pattern inputs x chunkings ----
+	for _, c := range deliveryCases(r, thorough) {
+		addCase(c)
+	}
+
 	// ---- 10. the goawk binary: command-line glue ----
 	for _, c := range cliCases(r, thorough) {
 		addCase(c)
@@ -380,6 +397,11 @@ func judge(rep *hx.Report, c *Case, out Outcome) {
 			rep.Count("error-as-required:" + c.Family)
 		}
 	case "ok":
+		if !failed && c.ExpectOutHex != "" && string(out.Out) != unhx(c.ExpectOutHex) {
+			d := c.Detail(out)
+			d["expected_output"] = fmt.Sprintf("%q", unhx(c.ExpectOutHex))
+			rep.Fail(hx.Failure{Class: "wrong-output:" + c.Family, Oracle: c.ExpectWhy, Detail: d})
+		}
 		if failed {
 			rep.Fail(hx.Failure{Class: "expected-ok:" + c.Family, Oracle: c.ExpectWhy, Detail: c.Detail(out)})
 		}
